@@ -2,7 +2,7 @@
 import json, os, re, shutil, subprocess, tempfile, time
 from . import common as C
 from . import l2, l3, l4, mirror as M, fsx
-from .props import (prop, prepare, l2_stream, corpus_l2, cmd_name, cmd_args, cmd_path, gen_mixed, oracle_no_command_through_link,
+from .props import (general_l2, prop, prepare, l2_stream, corpus_l2, cmd_name, cmd_args, cmd_path, gen_mixed, oracle_no_command_through_link,
                     effective_dest_listing, effective_src_listing, sides_asked, is_mutating, parse_summary, trace_actions)
 
 
@@ -116,6 +116,7 @@ def check_C12(run):
         shutil.rmtree(d, ignore_errors=True)
     # ---- L3: doer model stream
     fsx_stream(run, 250 if not thorough else 4000)
+    general_l2(run)
     # ---- L2
     scs = corpus_l2('C12') + gen_mixed(rng, 1200 if not thorough else 12000, faults=False)
     for _ in range(400 if not thorough else 4000):
@@ -282,6 +283,7 @@ def check_C04(run):
         shutil.rmtree(d, ignore_errors=True)
     # ---- L3 doer-model stream
     fsx_stream(run, 150 if not thorough else 3000)
+    general_l2(run)
     # ---- L2 second-run scenarios
     scs = []
     for _ in range(500 if not thorough else 5000):
